@@ -262,7 +262,8 @@ EMPTY = {'Deriv': dict(src='value', dst='dphi', nc=1, pts=[]),
          'Wrap': dict(wrap='', N=0, outer=[], inner=[]),
          'Dual': dict(how='nodal', N=0, rows=[], M=[], X=[], verts=[], ents=[], S=[], lay=[], cnt=[], names=[], F=[],
                       pt=[], ord=1),
-         'PoU': dict(N=0, V=[]), 'Agree': dict(N=0, A=[], B=[])}
+         'PoU': dict(N=0, V=[]), 'Agree': dict(N=0, A=[], B=[]),
+         'CellList': dict(nt=1, idx=[], R=[], lists=[])}
 
 
 def pairs_of(fields):
@@ -382,19 +383,45 @@ def exec_ref(rec):
 
 
 # ================================================================================================ cell driver
-def _cell_fields(e, mapping, X, i, k):
-    out = e.gbasis(mapping, X, i, tind=np.array([k], dtype=np.int64))
+def _cell_fields(e, mapping, X, i, k, tl=None):
+    """fields of local index i on cell k at the points X.  tl = None: the cell list is <<k>>; tl = (list, pos): the
+    library is called with the whole cell list (shared points) and position pos (where list[pos] = k) is taken."""
+    if tl is None:
+        tind, pos, nl = np.array([k], dtype=np.int64), 0, 1
+    else:
+        tind, pos, nl = tl[0], tl[1], len(tl[0])
+        if int(tind[pos]) != k or X.ndim != 2:
+            raise MachineryError('cell list does not hold the cell at the stated position')
+    out = e.gbasis(mapping, X, i, tind=tind)
     res = []
     for df in out:
         fd = {}
         for nm, a in field_dict(df).items():
             a = np.asarray(a, dtype=np.float64)
-            if a.ndim < 2 or a.shape[-2] != 1 or a.shape[-1] != X.shape[-1]:
+            if a.ndim < 2 or a.shape[-2] != nl or a.shape[-1] != X.shape[-1]:
                 raise ValueError('unexpected field shape')
             comp = a.shape[:-2]
-            fd[nm] = (a.reshape((-1, X.shape[-1])), [int(s) for s in comp])
+            fd[nm] = (a[..., pos, :].reshape((-1, X.shape[-1])), [int(s) for s in comp])
         res.append(fd)
     return res
+
+
+def list_with_repeats(k, nt, rng, dtype):
+    """A cell list of EXACTLY nt entries, not in natural order, with a repeated entry where nt allows it, in which
+    cell k sits at a position different from k (returns (array, position of k))."""
+    if nt == 1:
+        return np.array([k], dtype=dtype), 0
+    perm = [int(v) for v in rng.permutation(nt)]
+    pos = perm.index(k)
+    if pos == k:                                      # move k away from its own position
+        other = (k + 1 + int(rng.integers(nt - 1))) % nt
+        perm[pos], perm[other] = perm[other], perm[pos]
+        pos = other
+    if nt >= 3:                                       # a repeat (k itself stays where it is)
+        r = [q for q in range(nt) if q != pos]
+        a, b = r[0], r[1]
+        perm[a] = perm[b]
+    return np.array(perm, dtype=dtype), pos
 
 
 def _multi_fields(e, mapping, X3, i, cells):
@@ -486,9 +513,14 @@ def exec_cell(rec):
     events = []
     wrapper = info['wrap'] in ('Vector', 'Composite')
     fam = info['fam']
+    nt = int(mesh.t.shape[1])
+    tls = {}
+    for c, k in enumerate(cells):
+        # every second chosen cell is evaluated through a cell list of exactly nt entries (permuted, with repeats)
+        tls[k] = list_with_repeats(int(k), nt, rng, np.int32 if c % 4 == 1 else np.int64) if c % 2 == 1 else None
     for k in cells:
         verts = exact_ints(mesh.p[:, mesh.t[:, k]].T) if affine else None
-        base = dict(base0, verts=verts if verts is not None else [], tags={'cell': int(k)})
+        base = dict(base0, verts=verts if verts is not None else [], tags={'cell': int(k), 'tl': 1 if tls[k] else 0})
         if affine and verts is None:
             raise MachineryError('generated coordinates are not integers')
         # ---------------- MappingRule: lbasis + Jacobians + gbasis at points of the cell, every local index
@@ -512,7 +544,7 @@ def exec_cell(rec):
                     phi, dphi = e.lbasis(X, i)
                     lv, _ = as_field(phi, X.shape[1])
                     ld = as_field(dphi, X.shape[1])[0] if dphi is not None else np.zeros((0, X.shape[1]))
-                    fd = _cell_fields(e, mapping, XX, i, k)[0]
+                    fd = _cell_fields(e, mapping, XX, i, k, None if percell else tls[k])[0]
                     dn = [nm for nm in ('grad', 'div', 'curl') if nm in fd]
                     gd = fd[dn[0]][0] if dn else np.zeros((0, X.shape[1]))
                     Ls.append((lv, ld))
@@ -532,7 +564,7 @@ def exec_cell(rec):
                 else:
                     for q, r in enumerate(res):
                         ev = err_event(base, 'Map', '', **r)
-                        ev['tags'] = {'cell': int(k), 'q': q, 'xs': 'percell' if percell else 'shared'}
+                        ev['tags'] = {'cell': int(k), 'q': q, 'xs': 'percell' if percell else 'shared', 'tl': 1 if (tls[k] and not percell) else 0}
                         events.append(ev)
         # ---------------- MappedDerivative / GlobalDerivative on affine cells, every local index, global axes
         if affine and not info['skeleton'] and (info['allglobal'] or not info['anyglobal']) and fam != 'Matrix':
@@ -543,12 +575,12 @@ def exec_cell(rec):
             iA = inv_exact(np.asarray(mapping.DF(Xc, tind=np.array([k], dtype=np.int64)))[:, :, 0, 0])
             dirs = (lambda X0, iA=iA: [[iA[r][c] for r in range(d)] for c in range(d)])     # columns of invDF
             for i in range(N):
-                b = dict(base, i=i + 1, tags={'cell': int(k), 'i': i + 1})
+                b = dict(base, i=i + 1, tags={'cell': int(k), 'tl': 1 if tls[k] else 0, 'i': i + 1})
                 sel = [lat[j] for j in sorted(rng.choice(len(lat), size=min(int(rec['nder']), len(lat)), replace=False))]
                 plans, X = plan_points(kind, sel, dirs, n, okw1, rng, HS_PHYS)
                 if not plans:
                     continue
-                res, err = guarded(lambda i=i, X=X, k=k: _cell_fields(e, mapping, X, i, k), 120)
+                res, err = guarded(lambda i=i, X=X, k=k: _cell_fields(e, mapping, X, i, k, tls[k]), 120)
                 if err:
                     events.append(err_event(b, 'Deriv', err, **EMPTY['Deriv']))
                     continue
@@ -561,7 +593,7 @@ def exec_cell(rec):
                     if 'hess' in fd and fd['value'][1] == [] and okw2:
                         plans2, X2 = plan_points(kind, sel[:2], dirs, n, okw2, rng, HS_SECOND, centred=True)
                         if plans2:
-                            r2, err = guarded(lambda i=i, X2=X2, k=k: _cell_fields(e, mapping, X2, i, k), 120)
+                            r2, err = guarded(lambda i=i, X2=X2, k=k: _cell_fields(e, mapping, X2, i, k, tls[k]), 120)
                             if err:
                                 events.append(err_event(bp, 'Deriv', err, **EMPTY['Deriv']))
                             else:
@@ -573,14 +605,14 @@ def exec_cell(rec):
             ents = rd.facets if (info['dual'] == 'flux' or d == 2) else rd.edges
             bary = {2: [(.75, .25), (.5, .5), (.25, .75)], 3: [(.5, .25, .25), (.25, .5, .25), (.25, .25, .5)],
                     4: [(.25, .25, .25, .25), (.5, .25, .125, .125), (.125, .125, .25, .5)]}
-            b = dict(base, how=info['dual'], N=N, tags={'cell': int(k), 'how': info['dual']})
+            b = dict(base, how=info['dual'], N=N, tags={'cell': int(k), 'tl': 1 if tls[k] else 0, 'how': info['dual']})
 
             def call(k=k):
                 S = []
                 P = np.asarray(rd.p, dtype=np.float64)
                 for f in ents:
                     X = np.array([P[:, f] @ np.array(lam) for lam in bary[len(f)]]).T
-                    vals = [_cell_fields(e, mapping, X, i, k)[0]['value'][0] for i in range(N)]
+                    vals = [_cell_fields(e, mapping, X, i, k, tls[k])[0]['value'][0] for i in range(N)]
                     S.append([[fxs(vals[i][:, q]) for i in range(N)] for q in range(X.shape[1])])
                 return S
             res, err = guarded(call, 120)
@@ -592,7 +624,7 @@ def exec_cell(rec):
         # ---------------- Duality of global elements: named DOFs (public doflocs / dofnames) and the own gdof
         if fam == 'Global' and not wrapper and spec[0] == 'cls':
             rd = e.refdom
-            b = dict(base, how='named', N=N, tags={'cell': int(k), 'how': 'named'})
+            b = dict(base, how='named', N=N, tags={'cell': int(k), 'tl': 1 if tls[k] else 0, 'how': 'named'})
 
             def call(k=k):
                 dl = np.asarray(e.doflocs, dtype=np.float64)
@@ -606,7 +638,7 @@ def exec_cell(rec):
                 order = None
                 F = [[None] * N for _ in uniq]
                 for i in range(N):
-                    fd = _cell_fields(e, mapping, X, i, k)[0]
+                    fd = _cell_fields(e, mapping, X, i, k, tls[k])[0]
                     names = [nm for nm in ('value', 'grad', 'hess', 'grad3', 'grad4') if nm in fd]
                     order = len(names)
                     allf = np.vstack([fd[nm][0] for nm in names])
@@ -627,7 +659,7 @@ def exec_cell(rec):
 
             def call(k=k):
                 X = np.array(lat, dtype=np.float64).T / 8.0
-                V = np.array([_cell_fields(e, mapping, X, i, k)[0]['value'][0][0] for i in range(N)])
+                V = np.array([_cell_fields(e, mapping, X, i, k, tls[k])[0]['value'][0][0] for i in range(N)])
                 return [fxs(V[:, q]) for q in range(X.shape[1])]
             res, err = guarded(call, 120)
             ev = err_event(b, 'PoU', err, **EMPTY['PoU'])
@@ -756,6 +788,53 @@ def exec_cell(rec):
         if not err:
             ev.update(A=res[0], B=res[1])
         events.append(ev)
+    # ---------------- CellListCommutes: explicit cell lists of every shape against the single-cell evaluations
+    if not info['skeleton']:
+        b = dict(base0, nt=nt, tags={'how': 'celllist'})
+        ncl = int(rec.get('ncl', 8))
+        idx = list(range(N)) if N <= ncl else sorted(int(v) for v in rng.choice(N, size=ncl, replace=False))
+
+        def cell_lists():
+            full = list(range(nt))
+            perm = [int(v) for v in rng.permutation(nt)]
+            if perm == full and nt > 1:
+                perm = full[1:] + full[:1]
+            rep = [int(v) for v in rng.integers(0, nt, size=nt)]
+            if nt > 1:
+                rep[0] = rep[-1] = (rep[0] + 1) % nt if rep[0] == 0 else rep[0]      # a repeat, first entry not cell 0
+            m = max(1, nt // 2)
+            sub = sorted(int(v) for v in rng.choice(nt, size=m, replace=False))
+            unsorted = [int(v) for v in rng.permutation(sub)][::-1] if m > 1 else [nt - 1]
+            subrep = (unsorted + unsorted[:1])[:max(2, m)] if nt > 2 else [nt - 1, nt - 1][:max(1, nt - 1)]
+            longer = [int(v) for v in rng.integers(0, nt, size=nt + 1 + nt // 2)]
+            out = [('natural', full, 'int64', 0), ('natural32', full, 'int32', 0), ('permutation', perm, 'int64', 0),
+                   ('nt-with-repeats', rep, 'int32', 0), ('subset-sorted', sub, 'int64', 0),
+                   ('subset-unsorted', unsorted, 'int64', 0), ('subset-repeats', subrep, 'int64', 0),
+                   ('single', [int(rng.integers(nt))], 'int64', 0), ('longer', longer, 'int64', 0),
+                   ('permutation-percell', perm[::-1] if perm[::-1] != full else perm, 'int64', 1)]
+            bf, err = guarded(lambda: np.asarray(mesh.f2t[0, mesh.boundary_facets()]), 30)
+            if not err and len(bf):                 # the cells a FacetBasis of the boundary evaluates (facet_basis.py:94-107)
+                own = [int(v) for v in bf]
+                out.append(('boundary-facet-owners', own, 'int32', 0))
+                out.append(('nt-boundary-facet-owners', (own * (nt // len(own) + 1))[:nt], 'int32', 0))
+            return out
+
+        def call():
+            X = np.array([lat[j] for j in sorted(rng.choice(len(lat), size=2, replace=False))], dtype=np.float64).T / 8.0
+            R = [[[field_records(df) for df in e.gbasis(mapping, X, i, tind=np.array([c], dtype=np.int64))] for i in idx]
+                 for c in range(nt)]
+            lists = []
+            for name, L, dt, percell in cell_lists():
+                tind = np.array(L, dtype=getattr(np, dt))
+                XX = np.ascontiguousarray(np.repeat(X[:, None, :], len(L), axis=1)) if percell else X
+                F, err = guarded(lambda: [[field_records(df) for df in e.gbasis(mapping, XX, i, tind=tind)] for i in idx], 120)
+                lists.append({'name': name, 'tind': [v + 1 for v in L], 'err': err, 'F': F if not err else []})
+            return R, lists
+        res, err = guarded(call, 600)
+        ev = err_event(b, 'CellList', err, nt=nt, idx=[i + 1 for i in idx], R=[], lists=[])
+        if not err:
+            ev.update(R=res[0], lists=res[1])
+        events.append(ev)
     # ---------------- Duality through the element's own functionals gdof (element_global.py:167-189)
     if info['fam'] == 'Global' and not wrapper and spec[0] == 'cls':
         b = dict(base0, how='gdof', N=N, tags={'how': 'gdof'})
@@ -868,7 +947,8 @@ def recipes(T, tier, seed):
                      'nmap': 2 if quick else 4, 'nder': (1 if big else 2) if quick else (2 if big else 4),
                      # local indices per call history / per-element stencil (all of them unless the element is large)
                      'nhist': (3 if big else 6) if quick else (6 if big else 16),
-                     'npc': (8 if big else 64) if quick else (16 if big else 64)}
+                     'npc': (8 if big else 64) if quick else (16 if big else 64),
+                     'ncl': (3 if big else 6) if quick else (8 if big else 16)}
                 if info['anyglobal']:
                     r['mesh2'] = mesh_recipe(kind, geo, seed + 100 + 29 * n + 4 * g + v + 17)
                 out.append(r)
